@@ -378,3 +378,241 @@ Proof.
   assert (L10 : loops s10p = loop_ctx s :: loops s) by (rewrite Es10p; exact (fr_loops _ _ F10)). rewrite L10 in *. cbn [tl] in *.
   apply (R_loop_some s k (end_stmt (For k body (OSome eb))) body eb Rb Re H1 H2 W C s10p Es10p). exact Et1p.
 Qed.
+
+(* ---- class ---- *)
+Lemma R_class k nm body : R_block body -> R_stmt (Class k nm body).
+Proof.
+  intros Rb H s W C. cbn [c03_stmt] in H. open_stmt'. bsimp.
+  pose proof (wf_cur _ W) as Wc. pose proof (wf_wfb _ W) as Wb.
+  set (t0 := add_stmt (set_cur (connect (nb s) (cur s) (next s) ENormal) (next s)) (next s) (mk k (end_stmt (Class k nm body)) KOther)).
+  assert (M0 : mid (eq (cur s)) s t0).
+  { apply mid_add_stmt, mid_set_cur. apply mid_connect; [apply mid_nb, mid_refl; exact W|left; reflexivity|ulia|ulia]. }
+  assert (W0 : wf t0).
+  { apply (wf_same _ _ _ M0 W); [unfold t0; ulia|reflexivity|reflexivity|]. apply (noout_entry s); [exact W|reflexivity|]. unfold t0. ulia. }
+  apply (Rb H t0 W0). unfold t0. autorewrite with bst. apply creg_o; [auto with plainDB|exact C].
+Qed.
+
+(* ---- comprehensions ---- *)
+Lemma comp_reg k cl : forall s prev, wfb s -> prev < next s -> creg (edges s) ->
+  let r := comp_clauses s k cl prev in
+  creg (edges (snd r)) /\ incl (edges s) (edges (snd r)) /\ (fst r = prev \/ exists v, In (fst r, v, ECondTrue) (edges (snd r))).
+Proof.
+  induction cl as [|nifs cl IH]; intros s prev Wb Hp C.
+  - cbn. split; [exact C|split; [apply incl_refl|left; reflexivity]].
+  - cbn [comp_clauses]. nbs. cbv zeta.
+    set (X := mk k k KOther).
+    match goal with |- context [connect ?a (next s) ?b ECondTrue] => set (s5 := connect a (next s) b ECondTrue) end.
+    assert (Wb5 : wfb s5).
+    { unfold s5. apply wfb_connect; [apply wfb_nb, wfb_add_stmt, wfb_connect; [apply wfb_nb; exact Wb|rlia|rlia]|rlia|rlia]. }
+    assert (C5 : creg (edges s5)).
+    { unfold s5. autorewrite with bst. apply creg_T; [apply creg_o; [auto with plainDB|exact C]|].
+      intros v Hin. apply in_snoc_e in Hin. destruct Hin as [Hin|Heq]; [|discriminate]. pose proof (wb_bnd _ Wb _ _ _ Hin). lia. }
+    assert (N5 : next s5 = N.succ (N.succ (next s))) by reflexivity.
+    assert (In5 : In (next s, N.succ (next s), ECondTrue) (edges s5)).
+    { unfold s5. autorewrite with bst. apply in_or_app. right. left. reflexivity. }
+    assert (I5 : incl (edges s) (edges s5)).
+    { unfold s5. autorewrite with bst. intros x Hx. repeat (apply in_or_app; left). exact Hx. }
+    assert (No5 : forall p, N.succ (N.succ (next s)) <= p -> noout s5 p) by (intros p Hp'; apply noout_fresh_b; [exact Wb5|lia]).
+    assert (Hfin : forall s6, wfb s6 -> next s < next s6 -> creg (edges s6) -> incl (edges s5) (edges s6) ->
+              let r := comp_clauses s6 k cl (next s) in
+              creg (edges (snd r)) /\ incl (edges s) (edges (snd r)) /\ (fst r = prev \/ exists v, In (fst r, v, ECondTrue) (edges (snd r)))).
+    { intros s6 Wb6 N6 C6 I6. destruct (IH s6 (next s) Wb6 N6 C6) as (C' & I' & L'). split; [exact C'|].
+      split; [eapply incl_tran; [exact I5|eapply incl_tran; [exact I6|exact I']]|]. right.
+      destruct L' as [L'|L']; [|exact L']. rewrite L'. exists (N.succ (next s)). apply I', I6. exact In5. }
+    clearbody s5. destruct (Nat.ltb 0 nifs); nbs; cbv zeta.
+    + apply Hfin.
+      * apply wfb_connect; [apply wfb_add_stmt, wfb_connect; [apply wfb_connect; [apply wfb_nb, wfb_add_stmt, wfb_connect;
+          [apply wfb_nb; exact Wb5|rlia|rlia]|rlia|rlia]|rlia|rlia]|rlia|rlia].
+      * rlia.
+      * autorewrite with bst. apply creg_o; [auto with plainDB|]. apply creg_F.
+        -- apply creg_T; [apply creg_o; [auto with plainDB|exact C5]|].
+           intros v Hin. apply in_snoc_e in Hin. destruct Hin as [Hin|Heq]; [|inversion Heq; lia].
+           exact (No5 (next s5) ltac:(lia) _ _ _ Hin eq_refl).
+        -- exists (N.succ (next s5)). apply in_or_app. right. left. reflexivity.
+      * autorewrite with bst. intros x Hx. repeat (apply in_or_app; left). exact Hx.
+    + apply Hfin.
+      * apply wfb_connect; [apply wfb_connect; [apply wfb_nb, wfb_add_stmt; exact Wb5|rlia|rlia]|rlia|rlia].
+      * rlia.
+      * autorewrite with bst. apply creg_o; [auto with plainDB|]. apply creg_o; [auto with plainDB|exact C5].
+      * autorewrite with bst. intros x Hx. repeat (apply in_or_app; left). exact Hx.
+Qed.
+
+Lemma R_comp k cl : R_stmt (Comp k cl).
+Proof.
+  intros _ s W C. cbn [process_stmt']. unfold process_comp. nbs. cbv zeta.
+  pose proof (wf_cur _ W) as Wc. pose proof (wf_wfb _ W) as Wb.
+  set (s4 := nb (add_stmt (connect (nb s) (cur s) (next s) ENormal) (next s) (mk k k KOther))).
+  assert (Wb4 : wfb s4) by (apply wfb_nb, wfb_add_stmt, wfb_connect; [apply wfb_nb; exact Wb|rlia|rlia]).
+  assert (C4 : creg (edges s4)) by (unfold s4; autorewrite with bst; apply creg_o; [auto with plainDB|exact C]).
+  destruct (comp_reg k cl s4 (next s) Wb4 ltac:(unfold s4; rlia) C4) as (C5 & I5 & L5).
+  destruct (comp_clauses s4 k cl (next s)) as [last s5]. cbn [fst snd] in *.
+  destruct (N.eqb_spec last (next s)) as [El|El]; autorewrite with bst.
+  - apply creg_o; [auto with plainDB|exact C5].
+  - apply creg_F; [exact C5|]. destruct L5 as [L5|L5]; [contradiction|exact L5].
+Qed.
+
+(* ---- exception handlers ---- *)
+Definition F_handlers_all (a : arms) : F_handlers a := proj1 (proj2 (proj1 (proj2 (proj2 frame_all)) a)).
+
+Definition R_handlers (a : arms) : Prop :=
+  c03_arms a = true -> forall s hbs nxt, wfb s -> NoDup hbs -> (forall h, In h hbs -> h < next s /\ noout s h) -> nxt < next s ->
+  creg (edges s) -> creg (edges (process_handlers' s a hbs nxt)).
+
+Lemma R_handlers_nil : R_handlers ANil.
+Proof. intros _ s hbs nxt _ _ _ _ C. exact C. Qed.
+
+Lemma R_handlers_cons k b r : R_block b -> R_handlers r -> R_handlers (ACons k b r).
+Proof.
+  intros Rb Rr H s hbs nxt Wb ND Hh Hn C. cbn [c03_arms] in H. apply andb_true_iff in H. destruct H as (H1 & H2).
+  destruct hbs as [|hb hbr]; [exact C|].
+  cbn beta iota delta [process_handlers'] fix match. peel_all ident:(p). bsimp.
+  set (X := mk k (N.max k (end_block b)) KOther) in *.
+  change (s2p = process_block' (set_cur (add_stmt s hb X) hb) b) in Es2p.
+  destruct (Hh hb (or_introl eq_refl)) as (Hb1 & Hb2).
+  destruct (R_sub b (add_stmt s hb X) hb Rb H1 (wfb_add_stmt _ _ _ Wb) Hb1 (noout_add_stmt _ _ _ _ Hb2) C)
+    as (W2 & C2 & M2 & L2 & X2 & K2 & N2 & I2 & Np2).
+  rewrite <- Es2p in *. autorewrite with bst in N2, K2.
+  inversion ND as [|? ? Hnin ND']; subst.
+  apply (Rr H2).
+  - apply wfb_connect; [apply wf_wfb; exact W2|apply W2|lia].
+  - exact ND'.
+  - intros h Hin. destruct (Hh h (or_intror Hin)) as (Q1 & Q2). split; [rlia|].
+    apply noout_connect.
+    + apply Np2; [apply noout_add_stmt; exact Q2|rlia|]. intros ->. exact (Hnin Hin).
+    + destruct K2 as [->|K2]; [intros ->; exact (Hnin Hin)|lia].
+  - rlia.
+  - autorewrite with bst. apply creg_o; [auto with plainDB|exact C2].
+Qed.
+
+(* ---- try / except (/ else), no finally ---- *)
+Lemma new_blocks_edges n : forall s, edges (snd (new_blocks s n)) = edges s.
+Proof.
+  induction n as [|n IH]; intro s; [reflexivity|]. cbn [new_blocks]. rewrite new_block_eq.
+  specialize (IH (nb s)). destruct (new_blocks (nb s) n) as [l s2]. cbn [fst snd] in *. exact IH.
+Qed.
+
+Ltac open_try' :=
+  cbn beta iota delta [process_stmt'] fix match; peel_all ident:(p);
+  match goal with |- context [new_blocks ?t ?n] =>
+    let hbs := fresh "hbs" in let s6 := fresh "s6" in let Enb := fresh "Enb" in
+    destruct (new_blocks t n) as [hbs s6] eqn:Enb end;
+  cbv beta iota; peel_all ident:(p).
+
+(* try body, normal exit edge, exception edges, handlers: from the state [t7] with the context pushed *)
+Lemma R_try_body t7 tryb hbs nat afe body hs :
+  R_block body -> R_handlers hs -> c03_block body = true -> c03_arms hs = true ->
+  wfb t7 -> tryb < next t7 -> noout t7 tryb -> NoDup hbs ->
+  (forall h, In h hbs -> h < next t7 /\ noout t7 h /\ h <> tryb) -> nat < next t7 -> afe < next t7 -> creg (edges t7) ->
+  let s8 := process_block' (set_cur t7 tryb) body in
+  let s10 := connect_all (connect s8 (cur s8) nat ENormal) tryb hbs EException in
+  let s11 := process_handlers' s10 hs hbs afe in
+  creg (edges s11) /\ wfb s11 /\ next t7 <= next s11 /\ loops s11 = loops t7 /\ excs s11 = excs t7 /\
+  (forall p, noout t7 p -> p < next t7 -> p <> tryb -> ~ In p hbs -> noout s11 p).
+Proof.
+  intros Rb Rh H1 H2 Wb Ht Not ND Hh Hnat Hafe C s8 s10 s11.
+  destruct (R_sub body t7 tryb Rb H1 Wb Ht Not C) as (W8 & C8 & M8 & L8 & X8 & K8 & N8 & I8 & Np8). fold s8 in W8, C8, M8, L8, X8, K8, N8, I8, Np8.
+  assert (Wb10 : wfb s10).
+  { apply wfb_connect_all; [apply wfb_connect; [apply wf_wfb; exact W8|apply W8|lia]|rlia|].
+    intros h Hin. destruct (Hh h Hin) as (Q & _). rlia. }
+  assert (N10 : next s10 = next s8) by (unfold s10; rlia).
+  assert (C10 : creg (edges s10)).
+  { apply creg_connect_all; [auto with plainDB|]. cbn [connect edges]. apply creg_o; [auto with plainDB|exact C8]. }
+  assert (No10 : forall p, noout t7 p -> p < next t7 -> p <> tryb -> noout s10 p).
+  { intros p Np Hp Hne. apply noout_connect_all; [|congruence]. apply noout_connect; [apply Np8; assumption|].
+    destruct K8 as [->|K8]; [congruence|lia]. }
+  assert (Hh10 : forall h, In h hbs -> h < next s10 /\ noout s10 h).
+  { intros h Hin. destruct (Hh h Hin) as (Q1 & Q2 & Q3). split; [lia|apply No10; assumption]. }
+  destruct (F_handlers_all hs s10 hbs afe Wb10 ND Hh10 ltac:(lia)) as (M11 & L11 & X11 & Q11). rewrite Q11 in M11, L11, X11. fold s11 in M11, L11, X11.
+  split; [apply (Rh H2); try assumption; lia|].
+  split; [apply (wfb_mid _ _ _ M11 Wb10); assumption|]. split; [pose proof (m_next _ _ _ M11); lia|].
+  split; [rewrite L11; unfold s10; autorewrite with bst; exact L8|]. split; [rewrite X11; unfold s10; autorewrite with bst; exact X8|].
+  intros p Np Hp Hne Hnin. apply (noout_mid (fun u => In u hbs) s10); [apply No10; assumption|exact M11|exact Hnin|lia].
+Qed.
+
+Lemma R_try_nn k body hs : R_block body -> R_handlers hs -> R_stmt (Try k body hs ONone ONone).
+Proof.
+  intros Rb Rh H s W C. cbn [c03_stmt c03_oblock] in H. rewrite !andb_true_r in H. apply andb_true_iff in H. destruct H as (H1 & H2).
+  open_try'. bsimp. pose proof (wf_cur _ W) as Wc.
+  set (t5 := nb (connect (nb s) (cur s) (next s) ENormal)) in *.
+  assert (M5 : mid (eq (cur s)) s t5) by (apply mid_nb, mid_connect; [apply mid_nb, mid_refl; exact W|left; reflexivity|ulia|ulia]).
+  destruct (try_setup s t5 (arms_length hs) None hbs s6 W M5 eq_refl eq_refl eq_refl) as (M7 & Wb7 & N7 & L7 & X7 & No7 & ND & Hh); [unfold t5; ulia|discriminate|exact Enb|].
+  assert (N5 : next t5 = N.succ (N.succ (next s))) by reflexivity.
+  pose proof (new_blocks_edges (arms_length hs) t5) as E6. rewrite Enb in E6. cbn [snd] in E6.
+  set (t7 := set_excs s6 ({| x_finally := None; x_handlers := hbs; x_processing := false |} :: excs s6)) in *.
+  assert (C7 : creg (edges t7)).
+  { unfold t7. autorewrite with bst. rewrite E6. unfold t5. autorewrite with bst. apply creg_o; [auto with plainDB|exact C]. }
+  destruct (R_try_body t7 (next s) hbs (N.succ (next s)) (N.succ (next s)) body hs Rb Rh H1 H2 Wb7) as (C11 & _); try assumption; try lia.
+  { apply No7. lia. }
+  { intros h Hin. apply Hh in Hin. split; [lia|split; [apply No7; lia|lia]]. }
+  subst s8p. rewrite Es11p. exact C11.
+Qed.
+
+Lemma R_try_sn k body hs eb : R_block body -> R_handlers hs -> R_block eb -> R_stmt (Try k body hs (OSome eb) ONone).
+Proof.
+  intros Rb Rh Re H s W C. cbn [c03_stmt c03_oblock] in H. rewrite andb_true_r in H.
+  apply andb_true_iff in H. destruct H as (H & H3). apply andb_true_iff in H. destruct H as (H1 & H2).
+  open_try'. bsimp. pose proof (wf_cur _ W) as Wc.
+  set (elseb := N.succ (N.succ (next s))) in *.
+  set (t5 := nb (nb (connect (nb s) (cur s) (next s) ENormal))) in *.
+  assert (M5 : mid (eq (cur s)) s t5) by (apply mid_nb, mid_nb, mid_connect; [apply mid_nb, mid_refl; exact W|left; reflexivity|ulia|ulia]).
+  destruct (try_setup s t5 (arms_length hs) None hbs s6 W M5 eq_refl eq_refl eq_refl) as (M7 & Wb7 & N7 & L7 & X7 & No7 & ND & Hh); [unfold t5; ulia|discriminate|exact Enb|].
+  assert (N5 : next t5 = N.succ (N.succ (N.succ (next s)))) by reflexivity.
+  pose proof (new_blocks_edges (arms_length hs) t5) as E6. rewrite Enb in E6. cbn [snd] in E6.
+  set (t7 := set_excs s6 ({| x_finally := None; x_handlers := hbs; x_processing := false |} :: excs s6)) in *.
+  assert (C7 : creg (edges t7)).
+  { unfold t7. autorewrite with bst. rewrite E6. unfold t5. autorewrite with bst. apply creg_o; [auto with plainDB|exact C]. }
+  destruct (R_try_body t7 (next s) hbs elseb (N.succ (next s)) body hs Rb Rh H1 H2 Wb7) as (C11 & Wb11 & N11 & L11 & X11 & Np11);
+    try assumption; try (unfold elseb; lia).
+  { apply No7. lia. }
+  { intros h Hin. apply Hh in Hin. split; [lia|split; [apply No7; lia|lia]]. }
+  subst s8p. rewrite <- Es11p in *.
+  assert (No11 : noout s11p elseb).
+  { apply Np11; [apply No7; unfold elseb; lia|unfold elseb; lia|unfold elseb; lia|]. intro Hin. apply Hh in Hin. unfold elseb in Hin. lia. }
+  destruct (R_sub eb s11p elseb Re H3 Wb11 ltac:(unfold elseb; lia) No11 C11) as (_ & C12 & _).
+  rewrite <- Et1p in C12. apply creg_o; [auto with plainDB|exact C12].
+Qed.
+
+(* ---- every construct ---- *)
+Definition R_arms (a : arms) : Prop := R_elif a /\ R_handlers a.
+
+Theorem R_all : (forall x, R_stmt x) /\ (forall b, R_block b) /\ (forall a, R_arms a) /\ (forall o, R_oblock o).
+Proof.
+  apply ast_mutind.
+  - intros k _ s _ C. exact C.
+  - intros k _ s _ C. exact C.
+  - exact R_return.
+  - intros k H. discriminate.
+  - exact R_break.
+  - exact R_continue.
+  - intros k body Rb elifs Ra els Re. destruct elifs as [|k1 b1 rest].
+    + destruct els as [|eb]; [apply R_if_nil_none; exact Rb|apply R_if_nil_some; [exact Rb|exact Re]].
+    + apply R_if_elif; [exact Rb|apply Ra|exact Re].
+  - intros k body Rb els Re. destruct els as [|eb]; [apply R_while_none; exact Rb|apply R_while_some; [exact Rb|exact Re]].
+  - intros k body Rb els Re. destruct els as [|eb]; [apply R_for_none; exact Rb|apply R_for_some; [exact Rb|exact Re]].
+  - intros k body Rb hs Rh els Re fin Rf. destruct Rh as (_ & Rh).
+    destruct fin as [|fb]; [|intro H; cbn [c03_stmt] in H; rewrite andb_false_r in H; discriminate].
+    destruct els as [|eb]; [apply R_try_nn; assumption|apply R_try_sn; assumption].
+  - intros k body _ H. discriminate.
+  - intros k cases _ H. discriminate.
+  - intros k cl. apply R_comp.
+  - intros k nm body _ _ s _ C. exact C.
+  - intros k nm body Rb. apply R_class; exact Rb.
+  - exact R_block_nil.
+  - intros x Rx b Rb. apply R_block_cons; assumption.
+  - split; [exact R_elif_nil|exact R_handlers_nil].
+  - intros k b Rb a (Ra1 & Ra2). split; [apply R_elif_cons; assumption|apply R_handlers_cons; assumption].
+  - exact I.
+  - intros b Rb. exact Rb.
+Qed.
+
+(* the whole function *)
+Theorem build_regular body : c03_block body = true -> creg (edges (build' body)).
+Proof.
+  intro H. unfold build'. rewrite new_block_eq. cbv beta iota zeta.
+  change (next init) with 2. change (connect (nb init) entry_id 2 ENormal) with build_s2.
+  cbn [connect edges]. apply creg_o; [auto with plainDB|].
+  apply (proj1 (proj2 R_all) body H _ wf_build_start).
+  change (creg ([] ++ [(entry_id, 2, ENormal)])). apply creg_o; [auto with plainDB|apply creg_nil].
+Qed.
+
+Print Assumptions build_regular.
